@@ -31,13 +31,13 @@ theorem inputsIndOf_length (name : Name) (ns : List Nat) (fs : List Fld) (hlen :
       cases ns with
       | nil => exact absurd rfl hns
       | cons n ns => rfl
-    simp only [List.append_nil, hemp, Bool.false_eq_true, if_false, List.length_map, length_cart, lengths_idxBlocks,
-      ownLen, Nat.mul_one]
+    simp only [ownBlock, ownKeyList, List.append_nil, hemp, Bool.false_eq_true, if_false, List.length_map, length_cart,
+      lengths_idxBlocks, ownLen, Nat.mul_one]
   | some p =>
     obtain ⟨e, ks⟩ := p
     have hemp : (ns.map idxBlock ++ [e]).isEmpty = false := by simp
-    simp only [hemp, Bool.false_eq_true, if_false, List.length_map, length_cart, List.map_append, lengths_idxBlocks,
-      List.map_cons, List.map_nil, prodL_append, ownLen, prodL, Nat.mul_one]
+    simp only [ownBlock, ownKeyList, hemp, Bool.false_eq_true, if_false, List.length_map, length_cart, List.map_append,
+      lengths_idxBlocks, List.map_cons, List.map_nil, prodL_append, ownLen, prodL, Nat.mul_one]
 
 /-- Number of index dictionaries produced by `prepare_inputs` = number of points of the node's axes. -/
 theorem inputs_length (E : Env) (nd : Node) (hF : Facts E nd) (hax : E.axes nd.name ≠ []) :
@@ -60,6 +60,26 @@ theorem inputs_length (E : Env) (nd : Node) (hF : Facts E nd) (hax : E.axes nd.n
     have := List.map_eq_nil_iff.mp h
     exact List.map_eq_nil_iff.mp this
 
+/-- `enumeration_ok` for a state object whose `prev` is the list of connected upstream states. -/
+theorem enumeration_ok' (E : Env) (senv : Spec.Env) (rs : Ress) (nd : Node) (hI : InvB E senv rs nd.name)
+    (hF : Facts E nd) (prev : List Name) (hp : prev = (sUps E nd).map (·.2)) :
+    (cart ((prev.map rs.get).map (·.indFinal) ++ ownBlock (ownOpt nd))).map flattenL
+      = rowMajor (sizesOf (E.axes nd.name)) ∧
+    (prev.map rs.get).flatMap (·.keysFinal) ++ ownKeyList (ownOpt nd)
+      = keysOf (E.axes nd.name) := by
+  subst hp
+  have hmm : List.map rs.get (List.map (·.2) (sUps E nd)) = (sUps E nd).map fun p => rs.get p.2 := by
+    rw [List.map_map]; rfl
+  rw [hmm]
+  exact enumeration_ok E senv rs nd.name hI nd hF rfl
+
+theorem prevs_ok' (E : Env) (senv : Spec.Env) (rs : Ress) (nd : Node) (hI : InvB E senv rs nd.name)
+    (hF : Facts E nd) (prev : List Name) (other : Other) (hp : prev = (sUps E nd).map (·.2))
+    (ho : other = (sUps E nd).map mk) :
+    prev.map (fun u => ((rs.get u).statesIndFinal.length, (assocGet other u).getD [])) = prevsL E nd := by
+  subst hp; subst ho
+  exact prevs_ok E senv rs nd.name hI nd hF rfl
+
 /-- `NodeExecution.start` on a node of the class with a state: the jobs and their inputs are the reference's. -/
 theorem runStateful_ok (E : Env) (hall : AllFacts E) (nodes : List Node) (sts : Sts) (N : Nat) (hA : InvA E sts N)
     (senv : Spec.Env) (rs : Ress) (nd : Node) (hI : InvB E senv rs nd.name) (hF : Facts E nd) (hlt : nd.name < N)
@@ -75,8 +95,8 @@ theorem runStateful_ok (E : Env) (hall : AllFacts E) (nodes : List Node) (sts : 
   have hsprev : s.prev = (sUps E nd).map (·.2) := hs.prev
   have hsother : s.other = (sUps E nd).map mk := hs.other
   have hscur : s.cur = ownTree nd := hs.cur
-  obtain ⟨henum, hkeys⟩ := enumeration_ok E senv rs nd.name hI nd hF rfl
-  have hprevs := prevs_ok E senv rs nd.name hI nd hF rfl
+  obtain ⟨henum, hkeys⟩ := enumeration_ok' E senv rs nd hI hF s.prev hsprev
+  have hprevs := prevs_ok' E senv rs nd hI hF s.prev s.other hsprev hsother
   have hown := ownEnum_ok hF (sizeOf nodes) hsize
   -- the job list
   have hplen : (rowMajor (sizesOf (E.axes nd.name))).length = prodL (sizesOf (E.axes nd.name)) := length_rowMajor _
@@ -98,16 +118,12 @@ theorem runStateful_ok (E : Env) (hall : AllFacts E) (nodes : List Node) (sts : 
     simp only [List.getElem_zip, List.getElem_map, hpt, jobOut, hf, bind, Except.bind, pure, Except.pure]
     rfl
   unfold runStateful
-  simp only [hsig, bind, Except.bind, hscur, hown, hsprev, hsother, List.map_map, pure, Except.pure]
-  have h1 : ((sUps E nd).map ((fun u => rs.get u) ∘ fun x => x.2)) = (sUps E nd).map fun p => rs.get p.2 := rfl
-  have h2 : ((sUps E nd).map ((fun u => ((rs.get u).statesIndFinal.length, (assocGet ((sUps E nd).map mk) u).getD [])) ∘ fun x => x.2))
-      = prevsL E nd := by
-    rw [← hprevs, List.map_map]
-  simp only [h1, h2, henum, hkeys, hs.comb, List.isEmpty_nil, if_true, hjobs]
+  simp only [hsig, bind, Except.bind, hscur, hown, pure, Except.pure, henum, hkeys, hprevs, hs.comb, List.isEmpty_nil,
+    if_true, hjobs]
   refine ⟨_, _, rfl, ?_, ?_⟩
   · apply invA_set hA nd.name hlt _ hax
     rw [entry_of_facts hF]
-    exact ⟨hs.comb, hs.ownComb, hs.cur, hs.other, hs.prev, hs.full⟩
+    exact ⟨by first | rfl | exact hs.comb, hs.ownComb, by first | rfl | exact hs.cur, hs.other, hs.prev, hs.full⟩
   · refine ⟨rfl, by simp [hax], by simp [hs.comb], fun _ => rfl, fun _ => rfl, fun _ => ?_⟩
     simp [hplen]
 
